@@ -1319,6 +1319,23 @@ class _Dom:
             edge = Pa["lower"] if v < Pa["lower"] else Pa["upper"]
             if abs(edge) >= 10 ** 6:
                 c = "bound>=1e6"  # witness predicate: the crossed active bound is large
+                if kind == "interior" and len(b) == 1 and how.endswith("by_1"):
+                    # a random interior point that lies within the float64 resolution of the encoding from the
+                    # active bound it crossed is the corner case of C07-F8 again (EPS margin below resolution),
+                    # not a different mechanism: resolution = 16 eps |scaled edge| / scaled width of the full domain
+                    try:
+                        lo_f, hi_f = float(self.P["lower"]), float(self.P["upper"])
+                        if "log" in self.ctor:
+                            mag, span = abs(math.log(abs(float(edge)))), math.log(hi_f + 0.5) - math.log(max(lo_f - 0.5, 1e-300))
+                        else:
+                            mag, span = abs(float(edge)), hi_f - lo_f + 1.0
+                        res = 16 * 2.220446049250313e-16 * mag / span
+                        dist = abs(u[0] - (b[0][0] if v < Pa["lower"] else b[0][1]))
+                        det["encoding_resolution"] = res
+                        if dist <= res:
+                            kind = "within_float_resolution_of_corner"
+                    except Exception:  # noqa: BLE001
+                        pass
         elif len(b) > 1:
             act_coords = [x for x, (lo, hi) in zip(u, b) if hi > lo]
             if all(x == 0.0 for x in u):
